@@ -67,8 +67,9 @@ Step ==
          [] Line.op = "byz" -> reg' = AddBlocks(reg, Line.new)
                                /\ UNCHANGED <<cfg, clog, voted, tsigned, votesFor, tsigners, offered, xlog, digests, outcomes, healInfo>>
          [] Line.op = "heal" ->
-              /\ healInfo' = [on |-> TRUE, members |-> ToSet(Line.members), view |-> Line.view, len |-> [r \in Nodes |-> Len(clog[r])]]
-              /\ UNCHANGED <<cfg, reg, clog, voted, tsigned, votesFor, tsigners, offered, xlog, digests, outcomes>>
+              /\ healInfo' = [on |-> TRUE, members |-> ToSet(Line.members), view |-> Line.view, len |-> [r \in Nodes |-> Len(clog[r])], ff |-> Line.faultfree]
+              /\ cfg' = [cfg EXCEPT !.leaders = Line.leaders]
+              /\ UNCHANGED <<reg, clog, voted, tsigned, votesFor, tsigners, offered, xlog, digests, outcomes>>
          [] Line.op = "step" ->
               LET n == Line.node
                   reg2 == AddBlocks(reg, Line.new)
@@ -163,7 +164,16 @@ Bound == 3 * (cfg.chain + 1)
 C05Step == (IsStep /\ healInfo.on) =>
     LET mx == Max({Line.post.view} \cup {0}) IN
     (Line.node \in healInfo.members /\ Line.post.view >= healInfo.view + Bound) => Len(clog'[Line.node]) > healInfo.len[Line.node]
-P_C05 == [][C05Step]_vars
+\* fault-free synchronous run: every view adds a certified block on top of the previous view's block, nobody times
+\* out, and when a replica handles the proposal of view v its committed block is the one of view v - ChainLength
+FaultFreeStep == (IsStep /\ healInfo.on /\ healInfo.ff) =>
+    /\ \A i \in 1..Len(Line.vcs) : ~Line.vcs[i][2]
+    /\ Line.kind # "timeout"
+    /\ (Line.ev.type = "propose" /\ Line.ev.block \in DOMAIN reg') =>
+          LET b == reg'[Line.ev.block] IN
+          /\ b.parent \in DOMAIN reg' /\ reg'[b.parent].view = b.view - 1 /\ b.qc = b.parent
+          /\ Line.post.cview = (IF b.view > cfg.chain THEN b.view - cfg.chain ELSE 0)
+P_C05 == [][C05Step /\ FaultFreeStep]_vars
 \* a panic inside a replica is never acceptable (reported under C10 when the harness targets it; here it
 \* discredits the run)
 NoPanic == [][IsStep => Line.panic = ""]_vars
